@@ -210,9 +210,12 @@ impl Scenario for C12 {
                 };
             }
             // non-monotone timestamps
-            t_ms = match rng.below(10) {
-                0 => t_ms.saturating_sub(rng.range(0, 5_000)),
-                1 => t_ms + rng.range(1_000, 100_000),
+            t_ms = match rng.below(100) {
+                0..=9 => t_ms.saturating_sub(rng.range(0, 5_000)),
+                10..=19 => t_ms + rng.range(1_000, 100_000),
+                // a receiver that stays up: the same airframe hours or days later
+                20 => t_ms + rng.range(3_600_000, 3 * 86_400_000),
+                21 => t_ms + rng.range(100_000, 3_600_000),
                 _ => t_ms + rng.range(0, 900),
             };
             at += if burst { rng.range(0, 2_000_000) } else { rng.range(0, 300_000_000) };
